@@ -90,8 +90,34 @@ func histString(h []shareElem) string {
 	return strings.Join(s, " ")
 }
 
+// c01Family selects how the identities of a case relate to each other: "" = 32 equal bytes per identity
+// (nothing in common), "twins-middle" / "twins-third" = equal except for one byte in the middle / the
+// third byte (same head and tail), "short" = one byte, "nested" = 4, 5, 6, ... equal bytes (each a prefix
+// of the next). Whatever abbreviates, hashes part of, or truncates an identity confuses some family.
+var c01Family string
+
+var c01Families = []string{"", "", "twins-middle", "twins-middle", "twins-third", "short", "nested"}
+
+func familyIdentity(fam string, i int) []byte {
+	switch fam {
+	case "twins-middle":
+		b := bytes.Repeat([]byte{0xab}, 52)
+		b[25] = byte(i)
+		return b
+	case "twins-third":
+		b := bytes.Repeat([]byte{0xcd}, 32)
+		b[2] = byte(i)
+		return b
+	case "short":
+		return []byte{byte(0x10 + i)}
+	case "nested":
+		return bytes.Repeat([]byte{0x33}, 4+i)
+	}
+	return bytes.Repeat([]byte{byte(0x10 + i)}, 32)
+}
+
 func identityBytes(i int) identitypreimage.IdentityPreimage {
-	return identitypreimage.IdentityPreimage(bytes.Repeat([]byte{byte(0x10 + i)}, 32))
+	return identitypreimage.IdentityPreimage(familyIdentity(c01Family, i))
 }
 
 type shareCache map[string]*shcrypto.EpochSecretKeyShare
@@ -109,7 +135,7 @@ func (f *eonFixture) buildShare(cache shareCache, e shareElem, hist []shareElem)
 	case "foreign-key":
 		keys, tag = f.Foreign, "f"
 	}
-	ck := fmt.Sprintf("%d/%d/%s/%d/%d", f.N, f.T, tag, e.Sender, madeFor)
+	ck := fmt.Sprintf("%d/%d/%s/%d/%d/%s", f.N, f.T, tag, e.Sender, madeFor, c01Family)
 	sh := cache[ck]
 	if sh == nil {
 		sh = keys.EpochSecretKeyShare(identityBytes(madeFor), e.Sender)
@@ -212,7 +238,7 @@ func runShareHistory(f *eonFixture, hist []shareElem, nIDs int) (sig, detail str
 				return "key-missing-at-t", fmt.Sprintf("after step %d (%s) no key for id%d although %d distinct valid shares arrived", step, e, id, f.T), false, nil
 			}
 			if have {
-				rk := fmt.Sprintf("%d/%d/%d", f.N, f.T, id)
+				rk := fmt.Sprintf("%d/%d/%d/%s", f.N, f.T, id, c01Family)
 				ref := c01RefKeys[rk]
 				if ref == nil {
 					r, err := f.Real.EpochSecretKey(identityBytes(id))
@@ -298,7 +324,7 @@ func genShareHistory(rt *rapid.T, n, nIDs int) []shareElem {
 
 func TestC01_EpochKG(t *testing.T) {
 	rec := recorder("C01")
-	rec.AddRule("layer A (in-memory aggregation): (n,t) with 1<=t<=n<=7 weighted to n<=4, 1-3 identities, histories of length 0..3n+4 over {valid share of keyper i, share of keyper i made for another identity, share made with a foreign eon key set of the same shape, repeat of an earlier element}; model = per identity the set of distinct senders whose valid share arrived before the key existed; after every element: key exists iff that set reached t, equals the key interpolated from keypers 0..t-1 (subset independence), junk/duplicates are refused and change nothing; at the end every key verifies under the eon public key and decrypts a message encrypted to (eon key, identity). non-trivial = key derived and (junk or repeat before the t-th valid share, or the first t valid senders are not {0..t-1}); distinct by (n,t,history)")
+	rec.AddRule("layer A (in-memory aggregation): (n,t) with 1<=t<=n<=7 weighted to n<=4, 1-3 identities (drawn family: unrelated, equal except one middle byte, one byte long, each a prefix of the next), histories of length 0..3n+4 over {valid share of keyper i, share of keyper i made for another identity, share made with a foreign eon key set of the same shape, repeat of an earlier element}; model = per identity the set of distinct senders whose valid share arrived before the key existed; after every element: key exists iff that set reached t, equals the key interpolated from keypers 0..t-1 (subset independence), junk/duplicates are refused and change nothing; at the end every key verifies under the eon public key and decrypts a message encrypted to (eon key, identity). non-trivial = key derived and (junk or repeat before the t-th valid share, or the first t valid senders are not {0..t-1}); distinct by (n,t,history)")
 	rec.Assume("shcrypto primitives (shlib) are outside the repository; senders are always in range (out-of-range senders are C05's subject)")
 	runRapid(t, N(400, 6000), func(rt *rapid.T) {
 		n := rapid.SampledFrom([]int{1, 2, 2, 3, 3, 3, 4, 4, 4, 5, 6, 7}).Draw(rt, "n")
@@ -306,11 +332,16 @@ func TestC01_EpochKG(t *testing.T) {
 		nIDs := rapid.IntRange(1, 3).Draw(rt, "nIDs")
 		f := getEonFixture(n, th)
 		h := genShareHistory(rt, n, nIDs)
+		c01Family = rapid.SampledFrom(c01Families).Draw(rt, "identityFamily")
+		defer func() { c01Family = "" }()
 		sig, detail, nt, labels := runShareHistory(f, h, nIDs)
+		if c01Family != "" && nIDs > 1 {
+			labels = append(labels, "identities:"+c01Family)
+		}
 		if sig != "" {
 			fatalf(rt, sig, "%s\nn=%d t=%d history: %s", detail, n, th, histString(h))
 		}
-		rec.Case(fmt.Sprintf("n%d t%d ids%d | %s", n, th, nIDs, histString(h)), nt, labels...)
+		rec.Case(fmt.Sprintf("n%d t%d ids%d fam=%s | %s", n, th, nIDs, c01Family, histString(h)), nt, labels...)
 	})
 }
 
@@ -428,12 +459,13 @@ func TestC01_HandlerPipeline(t *testing.T) {
 			}
 		}
 		ngroups := rapid.IntRange(1, 2).Draw(rt, "ngroups")
+		famB := rapid.SampledFrom([]string{"", "", "twins-middle", "twins-third", "nested"}).Draw(rt, "identityFamily")
 		var groups [][][]byte
 		for g := 0; g < ngroups; g++ {
 			k := rapid.IntRange(1, 3).Draw(rt, fmt.Sprintf("gsize%d", g))
 			var ids [][]byte
 			for i := 0; i < k; i++ {
-				ids = append(ids, bytes.Repeat([]byte{byte(0x50 + 8*g + i)}, 32))
+				ids = append(ids, familyIdentity(famB, 0x40+8*g+i))
 			}
 			groups = append(groups, ids)
 		}
